@@ -1,6 +1,6 @@
 """C09 — static rules enforced exactly: ill-formed rejected, well-formed accepted.
 
-Four streams, all through `nsverif lang` (the real Lexer -> Parser -> Resolver) and, for every
+Five streams, all through `nsverif lang` (the real Lexer -> Parser -> Resolver) and, for every
 program that parses, through the extracted `StaticRules.check` (`nsmodel langc09`) on the AST
 the harness dumped:
 
@@ -31,6 +31,17 @@ the harness dumped:
      every program of stream A carries two well-typed cells at random slots (guarded by
      `if to say (false)`: checked, never run).
 
+     Further families of the same stream: the history of a variable (how its static type comes
+     about) x every use, function signatures (result types; nested definitions hiding outer
+     ones), the static type of every operator's RESULT (declared, then used), and which
+     definition a call refers to (an inner definition with another parameter count in a
+     function / block / branch / loop, the call one construct further down, before or after
+     the inner definition, or back outside).
+  E  tiny-vocabulary grammar fuzzing (lib/tinygen.py): 50 000 short programs per quick run
+     (10x in thorough) sampled from the whole grammar over 2-3 identifiers shared by
+     variables, parameters and functions.  No expected verdict: the extracted checker must
+     agree with the resolver on every text (acceptance and multiset of messages).
+
 Correspondence: acceptance and the multiset of error diagnostics (message) of the resolver
 must equal `accepted` and the multiset of `category` of the model's violations."""
 import os
@@ -41,6 +52,7 @@ import time
 import common
 import langgen
 import langrun
+import tinygen
 
 TRUSTED_EXTRA = [
     "C09: StaticRules.check is compared with src/resolver.rs on the AST dumped by the harness (parser trusted to build the AST; "
@@ -565,7 +577,8 @@ def inject(rng, src, kind):
         c = rng.choice([c for c in cells() if not c["accept"]])
         res["kind"] = "type:" + c["name"].split(":")[0]
         res["cell"] = c["name"]
-        return done(s, insert(lines, s, cell_lines(c, names, rng)), c["message"], c["label"])
+        cl, lab = cell_instance(c, names, rng)
+        return done(s, insert(lines, s, cl), c["message"], lab)
     raise ValueError(kind)
 
 
@@ -879,6 +892,81 @@ def family_cells():
             # hidden only in the then-branch, called in the else-branch: the outer one is meant
             split = ["if to say (false) start"] + ["  " + x for x in inner] + ["  shout(@2())", "end", "if not so start", "  return @2()", "end"]
             emit("signature:hidden-in-other-branch:%s/%s" % (to, ti), outer + fn("@1", split), "@1()", to, only_valid=True)
+    # (iii) the static type of an operator's RESULT (the site that types an expression and the site that checks
+    # it must agree): every well-typed operand pair of every operator, the result declared and then used
+    def opres(op, l, r):
+        if op == "add":
+            return "string" if "string" in (l, r) else "number" if (l, r) == ("number", "number") else DYN
+        return "number" if op in ("minus", "times", "divide", "mod") else "boolean"
+
+    def lit(t):
+        return "@9[0]" if t == DYN else "(%s)" % L[t]
+
+    for op in OP_LABEL:
+        for l in VT + [DYN]:
+            for r2 in VT + [DYN]:
+                if not op_ok(op, l, r2):
+                    continue
+                pre = ["make @9 get [1]"] if DYN in (l, r2) else []
+                e = "%s %s %s" % (lit(l), op, lit(r2))
+                n0 = len(out)
+                emit("result:%s %s %s" % (l, op, r2), pre + ["make @1 get " + e], "@1", opres(op, l, r2))
+                emit("result-direct:%s %s %s" % (l, op, r2), pre, "(%s)" % e, opres(op, l, r2))
+                for c in out[n0:]:
+                    c["plain"] = False
+    for t in VT + [DYN]:
+        pre = ["make @9 get [1]"] if t == DYN else []
+        for uop, okset, res in (("not", ("boolean", "null", DYN), "boolean"), ("minus", ("number", DYN), "number")):
+            if t in okset:
+                n0 = len(out)
+                emit("result:%s %s" % (uop, t), pre + ["make @1 get %s %s" % (uop, lit(t))], "@1", res)
+                emit("result-direct:%s %s" % (uop, t), pre, "(%s %s)" % (uop, lit(t)), res)
+                for c in out[n0:]:
+                    c["plain"] = False
+
+    # (iv) which definition a call refers to: an outer @1 with n1 parameters, a second @1 with n2 parameters
+    # defined in a nested construct, the call one level further down (or back outside)
+    def cell(name, lines, accept, message=None, label=None):
+        out.append({"name": name, "lines": lines, "accept": accept, "message": None if accept else message,
+                    "label": None if accept else label, "plain": True})
+
+    def pars(n):
+        return ", ".join(["@7", "@8"][:n])
+
+    def args(n):
+        return ", ".join(["0"] * n)
+
+    def indent(ls, k=1):
+        return ["  " * k + x for x in ls]
+
+    containers = {"function": (["do @2() start"], ["end"]), "block": (["start"], ["end"]),
+                  "then": (["if to say (true) start"], ["end"]), "else": (["if to say (false) start", "end", "if not so start"], ["end"]),
+                  "loop": (["jasi (false) start"], ["end"])}
+    inner_places = {"direct": ([], []), "if": (["if to say (true) start"], ["end"]),
+                    "else": (["if to say (false) start", "end", "if not so start"], ["end"]), "loop": (["jasi (false) start"], ["end"]),
+                    "block": (["start"], ["end"]), "function": (["do @3() start"], ["end"]),
+                    "block-in-block": (["start", "  start"], ["  end", "end"])}
+    for n1 in (0, 1, 2):
+        for n2 in (0, 1, 2):
+            if n1 == n2:
+                continue
+            outer = ["do @1(%s) start" % pars(n1), "end"]
+            inner = ["do @1(%s) start" % pars(n2), "end"]
+            for cn, (copen, cclose) in containers.items():
+                for pn, (popen, pclose) in inner_places.items():
+                    for order in ("def-first", "call-first"):
+                        for nargs, ok in ((n2, True), (n1, False)):
+                            k = 2 if pn == "block-in-block" else 1
+                            call = popen + indent(["shout(@1(%s))" % args(nargs)], k if popen else 0) + pclose
+                            body = (inner + call) if order == "def-first" else (call + inner)
+                            cell("callee:%s/%s:%s:%d-hides-%d:%d-args" % (cn, pn, order, n2, n1, nargs),
+                                 outer + copen + indent(body) + cclose, ok, M_ARITY,
+                                 "Function `@1` dey expect %d argument%s but na %d dey here" % (n2, plural(n2), nargs))
+                # after the construct is closed the outer definition is meant again
+                for nargs, ok in ((n1, True), (n2, False)):
+                    cell("callee:%s/after:%d-hides-%d:%d-args" % (cn, n2, n1, nargs),
+                         outer + copen + indent(inner) + cclose + ["shout(@1(%s))" % args(nargs)], ok, M_ARITY,
+                         "Function `@1` dey expect %d argument%s but na %d dey here" % (n1, plural(n1), nargs))
     return out
 
 
@@ -892,8 +980,19 @@ def cells():
     return _CELLS
 
 
-def cell_lines(cell, names, rng):
+def cell_instance(cell, names, rng):
+    """-> (lines, label) with the `@n` placeholders replaced by fresh names (the label may mention one)"""
     sub = {}
+    lines = cell_lines(cell, names, rng, sub)
+    label = cell.get("label")
+    if label:
+        for k, v in sub.items():
+            label = label.replace(k, v)
+    return lines, label
+
+
+def cell_lines(cell, names, rng, sub=None):
+    sub = {} if sub is None else sub
     out = []
     for l in cell["lines"]:
         for k in re.findall(r"@\d", l):
@@ -1062,18 +1161,16 @@ def build_cases(env, n):
         cases.append({"id": "c%d" % i, "stream": "corpus", "key": key, "source": src, "expect": e})
     # the whole typing matrix, every run
     for i, c in enumerate(cells()):
-        names = set(BUILTINS) | set(KEYWORDS)
-        e = {"accept": c["accept"]}
-        if not c["accept"]:
-            e.update(message=c["message"], label=c["label"], allowed=set())
-        cases.append({"id": "m%d" % i, "stream": "matrix", "kind": c["name"], "source": "\n".join(guarded(cell_lines(c, names, rng))) + "\n",
-                      "expect": e})
-        if c.get("plain"):
-            # history / signature cells also at the top level (the root block's functions are pre-declared
-            # before anything is declared) — nothing is executed, so no guard is needed
+        for where in (("m", True), ("t", False)) if c.get("plain") else (("m", True),):
+            # history / signature / callee cells also at the top level (the root block's functions are
+            # pre-declared before anything is declared); nothing is executed, the guard is only one more context
             names = set(BUILTINS) | set(KEYWORDS)
-            cases.append({"id": "t%d" % i, "stream": "matrix", "kind": c["name"] + "@top",
-                          "source": "\n".join(cell_lines(c, names, rng)) + "\n", "expect": dict(e)})
+            cl, lab = cell_instance(c, names, rng)
+            e = {"accept": c["accept"]}
+            if not c["accept"]:
+                e.update(message=c["message"], label=lab, allowed=set())
+            cases.append({"id": "%s%d" % (where[0], i), "stream": "matrix", "kind": c["name"] + ("" if where[1] else "@top"),
+                          "source": "\n".join(guarded(cl) if where[1] else cl) + "\n", "expect": e})
     stats["matrix_cells"] = len(cells())
     stats["matrix_accepting"] = sum(1 for c in cells() if c["accept"])
     stats["enriched_with"] = {}
@@ -1161,6 +1258,99 @@ def evaluate(env, cases, name, model=True):
     return out
 
 
+# ----------------------------------------------------------------------------------------
+# stream E: tiny-vocabulary grammar fuzzing (lib/tinygen.py).  No expected verdict: on EVERY generated
+# text the extracted StaticRules.check must agree with the resolver on acceptance and on the multiset of
+# diagnostic messages.
+
+TINY_QUICK = 50000
+
+
+def tiny_opts(rng):
+    k = rng.random()
+    if k < 0.5:
+        return tinygen.Opts()
+    if k < 0.75:
+        return tinygen.Opts(names=["a", "f"], max_stmts=6)                 # two names for everything
+    if k < 0.9:
+        return tinygen.Opts(p_sane=0.97, max_stmts=8)                      # mostly well-formed: deep interactions survive
+    return tinygen.Opts(p_sane=0.6, max_stmts=4)
+
+
+def tiny_stream(env, n, model=True):
+    """-> (stats, disagreements, oracle-independent failures (front-end crash))"""
+    rng = env.rng
+    st = {"programs": 0, "accepted": 0, "parse_errors": 0, "compared": 0, "stmt": {}, "expr": {}, "features": {},
+          "diag": {}, "no_verdict": 0}
+    dis, fails = [], []
+    shard = 10000
+    for s0 in range(0, n, shard):
+        cases = []
+        for i in range(s0, min(n, s0 + shard)):
+            src, tree, gs = tinygen.gen(rng, tiny_opts(rng))
+            for grp in ("stmt", "expr"):
+                for k, v in gs[grp].items():
+                    st[grp][k] = st[grp].get(k, 0) + v
+            for k, v in tinygen.features(tree).items():
+                if k != "max_depth":
+                    st["features"][k] = st["features"].get(k, 0) + (1 if v else 0)
+                else:
+                    st["features"]["depth>=3"] = st["features"].get("depth>=3", 0) + (1 if v >= 3 else 0)
+            cases.append({"id": "y%d" % i, "stream": "tiny", "source": src, "expect": None, "tree": tree})
+        private_work(env)
+        recs = run_front_end(env, "tiny%d" % s0, cases)
+        mrecs = run_model(env, "tiny%d" % s0, recs, [c["id"] for c in cases]) if model else {}
+        for c in cases:
+            r = recs.get(c["id"])
+            st["programs"] += 1
+            if r is None or r.get("accepted") is None:
+                st["no_verdict"] += 1
+                if len(fails) < 5:
+                    fails.append({"key": "tiny-front-end-crash:" + common.chash(c["source"]), "case": jsonable_tiny(c),
+                                  "observed": "no verdict from the implementation: %s" % ((r or {}).get("crash"),)})
+                continue
+            if r["accepted"]:
+                st["accepted"] += 1
+            if not r.get("ast"):
+                st["parse_errors"] += 1
+                continue
+            st["compared"] += 1
+            for d in r["diags"]:
+                t = diag_tuple(d)
+                if t["severity"] == "error":
+                    st["diag"][t["message"]] = st["diag"].get(t["message"], 0) + 1
+            d = judge_model(r, mrecs.get(c["id"])) if model else None
+            if d is not None:
+                if len(dis) < 5:
+                    small = shrink_tiny(env, c)
+                    dis.append({"stream": "static-rules-tiny", "case": jsonable_tiny(small), "detail": d})
+                else:
+                    dis.append({"stream": "static-rules-tiny"})
+    return st, dis, fails
+
+
+def jsonable_tiny(c):
+    return {"id": c["id"], "stream": c["stream"], "source": c["source"]}
+
+
+def shrink_tiny(env, case, budget=30):
+    tag = [0]
+
+    def disagrees(tree):
+        tag[0] += 1
+        c = {"id": "sh", "source": tinygen.render(tree)}
+        try:
+            recs = run_front_end(env, "tshrink%d" % (tag[0] % 4), [c])
+            m = run_model(env, "tshrink%d" % (tag[0] % 4), recs, ["sh"])
+            return judge_model(recs.get("sh"), m.get("sh")) is not None
+        except Exception:
+            return False
+    if case.get("tree") is None:
+        return case
+    small = tinygen.shrink(case["tree"], disagrees, budget)
+    return dict(case, source=tinygen.render(small), tree=small)
+
+
 def correspond(env, searching=False, model=True):
     n = 1500 if env.tier == "quick" else 15000
     if searching:
@@ -1209,11 +1399,25 @@ def correspond(env, searching=False, model=True):
             if c["stream"] == "injected" and len(samples) < 5 and evaluations % 211 == 0:
                 samples.append({"kind": c["kind"], "context": c["context"], "expected": [c["expect"]["message"], c["expect"]["label"]],
                                 "diags": [(x["message"], x["label"]) for x in (diag_tuple(y) for y in r["diags"]) if x["severity"] == "error"]})
+    tn = TINY_QUICK if env.tier == "quick" else 10 * TINY_QUICK
+    tst, tdis, tfails = tiny_stream(env, tn, model)
+    evaluations += tst["programs"]
+    disagreements += tdis
+    failures += tfails
+    tiny_nontrivial = tst["compared"]
     if env.work.endswith(".%d" % os.getpid()):
         shutil.rmtree(env.work, ignore_errors=True)
+    pct = lambda k: round(100.0 * tst["features"].get(k, 0) / max(1, tst["programs"]), 1)
+    tiny_report = {"programs": tst["programs"], "compared_with_model": tst["compared"], "parse_errors": tst["parse_errors"],
+                   "accepted_percent": round(100.0 * tst["accepted"] / max(1, tst["programs"]), 1),
+                   "percent_with_shadowed_function_name": pct("shadowed_fn"), "percent_with_null_operand": pct("null_operand"),
+                   "percent_with_call_2_levels_below_shadowing_definition": pct("deep_call_below_shadow"),
+                   "percent_with_same_block_redeclaration": pct("redeclare"), "percent_name_is_variable_and_function": pct("var_fn_clash"),
+                   "percent_nesting_depth_3_or_more": pct("depth>=3"), "statement_kinds": tst["stmt"], "expression_kinds": tst["expr"],
+                   "resolver_error_messages": tst["diag"], "disagreements": len(tdis)}
     return {
         "evaluations": evaluations,
-        "distinct_nontrivial": len(nontrivial),
+        "distinct_nontrivial": len(nontrivial) + tiny_nontrivial,
         "rule": "each case = one program through the real Lexer/Parser/Resolver (front end only, nothing is executed) and, when it parses, through the extracted StaticRules.check on the "
                 "dumped AST; streams: well-formed by construction (oracle: accepted), one single-rule injection per program at a random slot/nesting "
                 "context or in place (oracle: rejected with the message+label of the broken rule, nothing outside its cascade), keyed corpus; "
@@ -1226,7 +1430,7 @@ def correspond(env, searching=False, model=True):
                   "injections_in_function_inside_loop": stats["fn_in_loop_injections"], "no_position_for_kind": stats["no_position"],
                   "generator_stats": stats["gen"], "corpus_cases": len(CORPUS),
                   "matrix_cells": stats.get("matrix_cells"), "matrix_cells_well_typed": stats.get("matrix_accepting"),
-                  "matrix_cells_as_expected": matrix_ok, "oracle_failures_where_model_tie_differs_too": tie_differs, "wellformed_enriched_with": stats.get("enriched_with")},
+                  "matrix_cells_as_expected": matrix_ok, "oracle_failures_where_model_tie_differs_too": tie_differs, "wellformed_enriched_with": stats.get("enriched_with"), "tiny_grammar_fuzz": tiny_report},
     }
 
 
